@@ -1,5 +1,5 @@
 use super::swift_utils::{
-    format_swift_amount_for_currency, parse_amount_with_currency, parse_currency,
+    ensure_ascii, format_swift_amount_for_currency, parse_amount_with_currency, parse_currency,
     parse_date_yymmdd, parse_exact_length,
 };
 use crate::errors::ParseError;
@@ -71,6 +71,7 @@ impl SwiftField for Field60F {
     where
         Self: Sized,
     {
+        ensure_ascii(input, "Field 60")?;
         // Format: 1!a6!n3!a15d - DebitCredit + Date + Currency + Amount
         if input.len() < 10 {
             return Err(ParseError::InvalidFormat {
@@ -122,6 +123,7 @@ impl SwiftField for Field60M {
     where
         Self: Sized,
     {
+        ensure_ascii(input, "Field 60")?;
         // Format: 1!a6!n3!a15d - DebitCredit + Date + Currency + Amount
         if input.len() < 10 {
             return Err(ParseError::InvalidFormat {
